@@ -189,7 +189,10 @@ func concat(lhs, rhs *sysl.Value_List) *sysl.Value {
 	result := MakeValueList()
 	{
 		result := result.GetList()
-		result.Value = lhs.Value
+		// copy: appending to lhs.Value directly would write into the left operand's spare
+		// capacity and change a list that an earlier concatenation of the same operand returned
+		result.Value = make([]*sysl.Value, 0, len(lhs.Value)+len(rhs.Value))
+		result.Value = append(result.Value, lhs.Value...)
 		result.Value = append(result.Value, rhs.Value...)
 		logrus.Tracef("concatList: lhs %d | rhs %d = %d\n", len(lhs.Value), len(rhs.Value), len(result.Value))
 	}
